@@ -26,8 +26,8 @@ ASSUMPTIONS = [
     "third-party cucumber_tag_expressions is part of the executed system (as installed in /venv)",
 ]
 REQUIRED = {"v2.meaning": {"quick": 3000, "thorough": 100000}, "v2.print_roundtrip": {"quick": 3000, "thorough": 100000},
-            "v2.config_substitution": 100, "v2.empty_selects_all": 3, "v2.list_form": 300, "v2.wip_adds_wip_term": 100, "v2.config_file_tags": 100, "v2.list_form_default_protocol": 500}
-REQUIRED_SEEN = {"default_protocol_list_shape": ["only_single_tags"], "config_list_shape": ["placeholder_after_plain_part", "other"], "config_file_kind": ["toml", "ini"],
+            "v2.config_substitution": 100, "v2.empty_selects_all": 3, "v2.list_form": 300, "v2.wip_adds_wip_term": 100, "v2.config_file_tags": 100, "v2.list_form_default_protocol": 500, "v2.meaning_for_any_iterable_of_tags": 1000}
+REQUIRED_SEEN = {"tags_given_as": ["generator", "iter", "map", "tuple", "frozenset", "dict_keys", "reversed"], "default_protocol_list_shape": ["only_single_tags"], "config_list_shape": ["placeholder_after_plain_part", "other"], "config_file_kind": ["toml", "ini"],
                  "config_file_mode": ["none", "plain", "placeholder", "placeholder_and_plain", "wip"]}
 EXHAUSTIVE = {"quick": True, "thorough": True}
 EXHAUSTIVE_SCOPE = "all binary and/or/not trees up to the leaf bound over the operand set, complete truth tables"
@@ -82,6 +82,24 @@ def check_tree(lab, mon, ast, rng, styles):
             mon.check("v2.print_roundtrip", ok,
                       lambda: dict(case=case, printed=printed, how=how, want=want, got=got2, error=err))
         mon.seen("style", "%s/%s" % (style, at))
+    # the tags may be handed over as ANY iterable (evaluate() documents Iterable[str]): one-shot iterators included
+    if nontrivial and rng.random() < 0.5:
+        text = T.render_v2(ast, rng, "min", False)
+        try:
+            e = lab.make(text, lab.P.V2)
+            for tags in rng.sample(SUBSETS, 6):
+                tags = list(tags)
+                want1 = T.evaluate(ast, set(tags))
+                forms = {"generator": (t for t in tags), "iter": iter(tags), "map": map(str, tags), "tuple": tuple(tags),
+                         "frozenset": frozenset(tags), "dict_keys": dict.fromkeys(tags).keys(), "reversed": reversed(tags)}
+                which = rng.choice(sorted(forms))
+                call = rng.choice(["check", "evaluate", "call"])
+                got1 = e.check(forms[which]) if call == "check" else (e.evaluate(forms[which]) if call == "evaluate" else e(forms[which]))
+                mon.check("v2.meaning_for_any_iterable_of_tags", bool(got1) == want1,
+                          lambda: dict(ast=ast, text=text, tags=tags, tags_given_as=which, via=call, got=got1, want=want1))
+                mon.seen("tags_given_as", which)
+        except Exception as ex:
+            mon.check("v2.meaning_for_any_iterable_of_tags", False, dict(ast=ast, text=text, error=repr(ex)))
     # list-of-terms form
     parts = T.render_v2_list(ast, rng, "min", False)
     if len(parts) > 1:
